@@ -166,9 +166,17 @@ def run(repo, rep, tier):
     dup = sorted({k for k in keys if keys.count(k) > 1})
     rep.ob("C14.R1", dmap, "no directive is defined twice", not dup, f"{dup}", key="C14.R1@dups")
     dec = repo.func("cell.py", "_decode_date_format_field")
-    s = U(dec).replace(" ", "").replace("\n", "")
-    ok = "iffieldinDATETIME_FIELD_MAP:s=DATETIME_FIELD_MAP[field]ifcallable(s):returns(value)returnvalue.strftime(s)" in s
-    rep.ob("C14.R1", dec, "renderer consults the same table: callable -> call, else strftime", ok, "", key="C14.R1@renderer")
+    from ..funsum import Summarizer, decide, expect
+    fp, vp_ = [a.arg for a in dec.args.args[:2]]
+    rpaths = Summarizer().summarize(dec)
+    bad = []
+    for present, is_call in ((True, True), (True, False), (False, False)):
+        sc = {f"{fp} in DATETIME_FIELD_MAP": present, f"callable(DATETIME_FIELD_MAP[{fp}])": is_call}
+        want = expect(f"DATETIME_FIELD_MAP[{fp}]({vp_})") if (present and is_call) else expect(f"{vp_}.strftime(DATETIME_FIELD_MAP[{fp}])") if present else expect("''")
+        for fx, kind, got, _p in decide(rpaths, sc):
+            if kind != "return" or got != want:
+                bad.append(f"field known={present}, entry callable={is_call}" + (f", {fx}" if fx else "") + f": returns `{got}` instead of `{want}`")
+    rep.ob("C14.R1", dec, "renderer consults the same table: callable -> call, else strftime; unknown field -> empty text", not bad, "; ".join(bad[:2]), key="C14.R1@renderer")
     fp = repo.func("cell.py", "Formatting.__post_init__")
     ok = "if el not in DATETIME_FIELD_MAP" in U(fp)
     rep.ob("C14.R1", fp, "format validation on write uses the same table", ok, "", key="C14.R1@validator")
@@ -272,8 +280,24 @@ def check_duration(repo, rep):
            [u for u in seen] == ["WEEK", "DAY", "HOUR", "MINUTE", "SECOND", "MILLISECOND"], f"missing {missing}; order {list(seen)}", key="C14.R4@order")
     uir = [n for n in body_walk(f) if isinstance(n, ast.FunctionDef) and n.name == "unit_in_range"]
     if uir:
-        ok = U(uir[0].body[-1]).replace(" ", "") == "returnlargest<=unit_typeandsmallest>=unit_type"
-        rep.ob("C14.R4", uir[0], "a unit is shown iff largest <= unit <= smallest (enum order week < ... < ms)", ok, "", key="C14.R4@unit_in_range")
+        import itertools as _it
+        from ..funsum import Summarizer as _Sm, cval as _cval, decide as _decide, _UNKNOWN as _UNK, Asg as _Asg, _Simp as _Sp
+        ps_ = [a.arg for a in uir[0].args.args]
+        bad = []
+        if len(ps_) == 3:
+            up = _Sm().summarize(uir[0])
+            vals_ = sorted(v for k, v in repo.consts.items() if k.startswith("DurationUnits.") and v)
+            for l_, s_, u_ in _it.product(vals_, repeat=3):
+                sc = dict(zip(ps_, (l_, s_, u_)))
+                outs = _decide(up, sc)
+                got = _cval(outs[0][3].ret, sc) if len(outs) == 1 and outs[0][1] == "return" else _UNK
+                if got is _UNK or bool(got) != (l_ <= u_ <= s_):
+                    bad.append(f"largest={l_}, smallest={s_}, unit={u_}: {got if got is not _UNK else 'undetermined'}")
+        else:
+            bad.append(f"parameters {ps_}")
+        ok = not bad
+        rep.ob("C14.R4", uir[0], "a unit is shown iff largest <= unit <= smallest (enum order week < ... < ms; every triple of units)", ok,
+               "" if ok else f"{bad[0]} (and {len(bad) - 1} more): units outside the chosen range are shown, or units inside it are dropped", key="C14.R4@unit_in_range")
     from .. import numfmt
     au, n_au, au_probs = numfmt.check_auto_units(repo)
     ok = not au_probs
@@ -295,6 +319,11 @@ def check_scanner(repo, rep):
 
 
 VARIANTS = [
+    M("unit-in-range-strict-upper", "cell.py", "            return largest <= unit_type and smallest >= unit_type", "            return largest <= unit_type and smallest > unit_type", "C14.R4"),
+    T("unit-in-range-chained", "cell.py", "            return largest <= unit_type and smallest >= unit_type", "            return largest <= unit_type <= smallest"),
+    M("date-field-callable-not-called", "cell.py", "        if callable(s):\n            return s(value)\n        return value.strftime(s)", "        return value.strftime(s)", "C14.R1"),
+    T("date-field-walrus-get", "cell.py", "    if field in DATETIME_FIELD_MAP:\n        s = DATETIME_FIELD_MAP[field]\n        if callable(s):\n            return s(value)\n        return value.strftime(s)",
+      "    if (s := DATETIME_FIELD_MAP.get(field)) is not None:\n        return s(value) if callable(s) else value.strftime(s)"),
     M("auto-units-week-threshold-exclusive", "cell.py", "        if cell_value >= SECONDS_IN_WEEK:\n            unit_largest = DurationUnits.WEEK", "        if cell_value > SECONDS_IN_WEEK:\n            unit_largest = DurationUnits.WEEK", "C14.R4"),
     M("auto-units-smallest-not-clamped", "cell.py", "        unit_smallest = max(unit_smallest, unit_largest)\n", "        pass\n", "C14.R4"),
     M("auto-units-minute-by-hour-modulus", "cell.py", "        elif cell_value % 60:\n            unit_smallest = DurationUnits.SECOND\n        elif cell_value % SECONDS_IN_HOUR:", "        elif cell_value % 60:\n            unit_smallest = DurationUnits.SECOND\n        elif cell_value % SECONDS_IN_DAY:", "C14.R4"),
